@@ -205,7 +205,46 @@ pub fn baseline(item: &CorpusItem) -> Option<Baseline> {
 }
 
 /// All faults enumerated for one item at this tier.
+/// Large streams (more than 4 KiB) get a sampled version of the enumeration plus what only they can
+/// show: whole lost sectors (long zeroed ranges).
+fn faults_for_large(item: &CorpusItem, tier_thorough: bool) -> Vec<StoreFault> {
+    let len = item.bytes.len();
+    let mut v = vec![];
+    for bit in 0..len * 8 {
+        if bit < 1024 * 8 || bit % 53 == 0 {
+            v.push(StoreFault::Flip { bit });
+        }
+    }
+    for l in (0..len).step_by(97) {
+        v.push(StoreFault::Truncate { len: l });
+    }
+    for at in (0..len).step_by(257) {
+        for l in [16usize, 512] {
+            v.push(StoreFault::ZeroRange { at, len: l });
+            v.push(StoreFault::Delete { at, len: l });
+            v.push(StoreFault::Duplicate { at, len: l });
+        }
+    }
+    // lost sectors: 4 KiB .. 32 KiB of zeros on a 1 KiB grid
+    for at in (0..len).step_by(1024) {
+        for l in [4096usize, 16500, 20000, 32768] {
+            if at + l / 2 < len {
+                v.push(StoreFault::ZeroRange { at, len: l });
+            }
+        }
+    }
+    for byte in (0..len).step_by(if tier_thorough { 7 } else { 61 }) {
+        for m in [0xFFu8, 0x81, 0xC3, 0x7E, 0x03] {
+            v.push(StoreFault::Burst { bit: byte * 8, mask: m });
+        }
+    }
+    v
+}
+
 fn faults_for(item: &CorpusItem, idx: usize, tier_thorough: bool) -> Vec<StoreFault> {
+    if item.bytes.len() > 4096 {
+        return faults_for_large(item, tier_thorough);
+    }
     let nbits = item.bytes.len() * 8;
     let mut v = vec![];
     for bit in 0..nbits {
@@ -247,15 +286,19 @@ pub fn run(ctx: &crate::RunCtx) -> (Summary, Vec<Violation>) {
     let mut sum = Summary::new(
         "corpus item = small emitted stream; faults on the stored bytes before parser::stream: EVERY single-bit flip, EVERY truncation length, zeroed / deleted / duplicated ranges of 1, 2, 4, 16 bytes at EVERY byte position (never-panics half), \
          bursts (quick: every multi-bit mask at every byte position for a third of the corpus; thorough: every start bit x every mask of width 2..8 with first and last bit set), \
-         plus seeded random byte strings and splices. A case = (stream, fault); all enumerated cases are distinct; non-trivial = the altered bytes got past the \
+         plus seeded random byte strings and splices. Streams larger than 4 KiB (a 96 KB frame, 32 KB frames at the maximum block size) get a sampled version plus zeroed ranges of 4-32 KiB (lost sectors). A case = (stream, fault); all enumerated cases are distinct; non-trivial = the altered bytes got past the \
          marker and STREAMINFO into the frame parser (fault at or after the first frame byte, or a random/spliced file that keeps a valid header).",
     );
     sum.exhaustive = Some(true);
     let thorough = ctx.tier == "thorough";
+    // (streams larger than 4 KiB are sampled, see faults_for_large; the flag is cleared below if one is present)
     let mut viols = vec![];
     let mut n_case = 0u64;
     let items: Vec<CorpusItem> = (0..ctx.count as usize).map(|i| corpus::build(ctx.seed, i)).collect();
     for item in &items {
+        if item.bytes.len() > 4096 {
+            sum.exhaustive = Some(false);
+        }
         if ctx.child == 0 {
             corpus::kinds(item, &mut sum.probes);
         }
